@@ -499,16 +499,17 @@ int main(int argc, char** argv)
           if (res == "{\"ok\":true}") { verif::state& s = verif::S(); std::unique_lock<std::mutex> lock(s.m);
             s.cv.wait_for(lock, std::chrono::milliseconds(20000), [&] { return s.go.count(who) == 0; }); } }
     else if (cmd == "run") { std::string who, until; in >> who >> until; int released = 0;
-          // Let the thread go on.  "run T lock": through any yield point that is not a lock, until it parks at a lock
-          // (nothing happens if it is there already).  "run T": through locks and log lines, however many there are, until
-          // it parks somewhere else (a handler) or is done.  "run T post": through log lines only (until it is blocked in the
-          // dispatcher hand-off, parks elsewhere or is done).  How often the code logs or locks is not prescribed.
+          // Let the thread go on.  "run T lock": through log lines until it parks at a lock (nothing happens if it is there
+          // already).  "run T": release it once, then through log lines, until it parks at the NEXT lock, at a handler, or is
+          // done.  "run T post": through log lines only (until it is blocked in the dispatcher hand-off, parks elsewhere or is
+          // done).  How often the code logs is not prescribed; its critical sections are the model's atomic actions and are
+          // followed one by one.
           for (int i = 0; i < 32; ++i) {
             { verif::state& s = verif::S(); std::unique_lock<std::mutex> lock(s.m);
               if (!s.at.count(who)) break;
               const std::string at = s.at[who];
               bool is_lock = at == "lock", is_log = at.compare(0, 4, "log/") == 0;
-              if (until == "lock" ? is_lock : until == "post" ? !is_log : (i > 0 && !is_lock && !is_log)) break;
+              if (until == "lock" ? is_lock : until == "post" ? !is_log : (i > 0 && !is_log)) break;
               s.go.insert(who); ++released; s.cv.notify_all();
               s.cv.wait_for(lock, std::chrono::milliseconds(20000), [&] { return s.go.count(who) == 0; }); }
             wait_quiet();
